@@ -1,4 +1,235 @@
+//! C11 — Cookie header decoding and Set-Cookie building (spec: specs/Cookie.tla).
+//!
+//! Concretises abstract jars / cookies, runs the REAL code (a real `Request` read from raw bytes, its
+//! `headers.Cookie()` handed to `ohkami_lib::serde_cookie::from_str`, `headers.Cookies()`; the response builder
+//! `res.headers.set().SetCookie(..)`, the response really sent into a buffer, the crate's own `SetCookie::from_raw`
+//! through `res.headers.SetCookie()`), and projects results onto code-point arrays.  TLC (Trace_Cookie) decides.
+use crate::urlenc::{bytes_json, cps, literal, spell, Cz};
+use crate::util::{self, Rng};
+use serde::{de::DeserializeOwned, Deserialize};
 use serde_json::{json, Value};
-pub fn run(_scn: &Value) -> Value { json!({"kind": "unimplemented"}) }
-#[allow(dead_code)]
-pub fn gen(_rng: &mut crate::util::Rng, i: usize) -> Value { json!({"id": i}) }
+use std::collections::BTreeMap;
+
+// ------------------------------------------------------------------ concretisation table (trusted base)
+pub fn ck_reps(class: &str) -> &'static [char] {
+    match class {
+        "al" => &['a', 'Z', '7', 'k', 'Q', '0'],
+        "eq" => &['='], "amp" => &['&'], "plus" => &['+'], "slash" => &['/'],
+        "unres" => &['-', '.', '_', '~'],
+        "cko" => &['!', '#', '$', '\'', '(', ')', '*', ':', '<', '>', '?', '@', '[', ']', '^', '`', '{', '|', '}'],
+        "pct" => &['%'], "sp" => &[' '], "comma" => &[','], "semi" => &[';'], "dq" => &['"'], "bsl" => &['\\'],
+        "ctl" => &['\t', '\n', '\r', '\u{1}', '\u{7f}'],
+        "nul" => &['\0'],
+        "u2" => &['é', 'ß', 'Ω', '\u{80}', '\u{7ff}'],
+        "u3" => &['狼', '€', '\u{800}', '\u{ffff}', '\u{d7ff}', '\u{e000}', '\u{fffd}'],
+        "u4" => &['😀', '\u{10000}', '\u{10ffff}', '𝄞'],
+        "tp" => &['!', '#', '$', '%', '&', '\'', '*', '+', '-', '.', '^', '_', '`', '|', '~'],   // token punctuation (names)
+        _ => &[],
+    }
+}
+const VCLASSES: [&str; 18] = ["al", "eq", "amp", "plus", "slash", "unres", "cko", "pct", "sp", "comma", "semi", "dq", "bsl", "ctl", "nul", "u2", "u3", "u4"];
+fn raw_class(c: &str) -> bool { matches!(c, "al" | "eq" | "amp" | "plus" | "slash" | "unres" | "cko") }
+
+// ------------------------------------------------------------------ catalogue (mirrors Cookie!CkCatalogue)
+#[derive(Deserialize)] struct CkA { a: String }
+#[derive(Deserialize)] struct CkAB { a: String, b: String }
+#[derive(Deserialize)] struct CkBA { b: String, a: String }
+#[derive(Deserialize)] struct CkOpt { a: String, o: Option<String> }
+#[derive(Deserialize)] struct CkRen { #[serde(rename = "x-y")] xy: String, #[serde(rename = "$t!")] t: String }
+#[derive(Deserialize)] struct CkNum { n: u32, a: String }
+type CkMap = BTreeMap<String, String>;
+type Proj = Vec<(String, Vec<String>)>;
+trait Ck: DeserializeOwned { fn project(&self) -> Proj; }
+fn p1(n: &str, v: &str) -> (String, Vec<String>) { (n.to_string(), vec![v.to_string()]) }
+impl Ck for CkA { fn project(&self) -> Proj { vec![p1("a", &self.a)] } }
+impl Ck for CkAB { fn project(&self) -> Proj { vec![p1("a", &self.a), p1("b", &self.b)] } }
+impl Ck for CkBA { fn project(&self) -> Proj { vec![p1("b", &self.b), p1("a", &self.a)] } }
+impl Ck for CkOpt { fn project(&self) -> Proj { vec![p1("a", &self.a), ("o".into(), self.o.iter().cloned().collect())] } }
+impl Ck for CkRen { fn project(&self) -> Proj { vec![p1("x-y", &self.xy), p1("$t!", &self.t)] } }
+impl Ck for CkNum { fn project(&self) -> Proj { vec![p1("n", &self.n.to_string()), p1("a", &self.a)] } }
+impl Ck for CkMap { fn project(&self) -> Proj { self.iter().map(|(k, v)| (k.clone(), vec![v.clone()])).collect() } }
+fn proj_json(p: &Proj) -> Value { Value::Array(p.iter().map(|(n, es)| json!({"n": cps(n), "v": es.iter().map(|e| cps(e)).collect::<Vec<_>>()})).collect()) }
+fn tool(msg: impl Into<String>) -> Value { json!({"kind": "tool-error", "msg": msg.into()}) }
+fn errc(e: &str) -> &'static str {
+    for (pat, c) in [("missing `; `", "missing-semi"), ("invalid Cookie value", "invalid-value"), ("invalid Cookie name", "invalid-name"), ("empty name", "empty-name"),
+                     ("missing `=`", "missing-eq"), ("missing `;`", "missing-semi2"), ("missing ` ` after", "missing-sp"), ("unexpected end of input", "eof"),
+                     ("missing field", "missing-field"), ("duplicate field", "dup-field"), ("Expected an integer", "expected-integer"), ("Unexpected trailing", "trailing")] {
+        if e.contains(pat) { return c }
+    }
+    if e.is_empty() { "" } else { "other" }
+}
+
+// ------------------------------------------------------------------ Cookie header
+fn wire(toks: &[Value], cz: &mut Cz, out: &mut Vec<u8>) -> Result<(), String> {
+    for t in toks {
+        let (c, e) = (util::s(&t["c"]), util::s(&t["e"]));
+        if c == "sym" { spell(out, &literal(util::s(&t["s"]))?, e) } else { spell(out, &cz.pick_in(c, ck_reps(c))?.to_string(), e) }
+    }
+    Ok(())
+}
+fn jar_text(scn: &Value, cz: &mut Cz) -> Result<Vec<u8>, String> {
+    let mut out = vec![];
+    for (i, c) in util::arr(&scn["jar"]).iter().enumerate() {
+        if i > 0 { out.extend_from_slice(b"; ") }
+        wire(util::arr(&c["n"]), cz, &mut out)?;
+        out.push(b'=');
+        let q = util::s(&c["q"]) == "y";
+        if q { out.push(b'"') }
+        wire(util::arr(&c["v"]), cz, &mut out)?;
+        if q { out.push(b'"') }
+    }
+    Ok(out)
+}
+fn request_with_cookie(text: &[u8]) -> Result<ohkami::__verif::VRequest, String> {
+    let mut raw = b"GET /c HTTP/1.1\r\nHost: verif\r\nCookie: ".to_vec();
+    raw.extend_from_slice(text);
+    raw.extend_from_slice(b"\r\nAccept: */*\r\n\r\n");
+    if raw.len() > 1000 { return Err("header too long for one request buffer".into()) }
+    let mut req = ohkami::__verif::VRequest::new();
+    let mut rd: &[u8] = &raw;
+    match util::block_on(req.read(&mut rd)) {
+        Ok(Some(())) => Ok(req),
+        Ok(None) => Err("request not read".into()),
+        Err(res) => Err(format!("request rejected with status {}", res.status.code())),
+    }
+}
+fn lossy(b: &[u8]) -> String { util::clip(&String::from_utf8_lossy(b), 300) }
+fn dec<T: Ck>(text: &[u8]) -> Value {
+    let noreq = |e: String| json!({"kind": "cookie", "mode": "dec", "text": bytes_json(text), "texts": lossy(text), "de": "noreq", "err": e, "errc": "", "vout": []});
+    let req = match request_with_cookie(text) { Ok(r) => r, Err(e) => return noreq(e) };
+    let Some(raw) = req.get().headers.Cookie() else { return noreq("the request has no Cookie header".into()) };
+    if raw.as_bytes() != text { return noreq("Cookie header value differs from what was sent".into()) }
+    let (de, err, vout) = match ohkami_lib::serde_cookie::from_str::<T>(raw) {
+        Ok(v) => ("ok", String::new(), proj_json(&v.project())),
+        Err(e) => ("err", util::clip(&e.to_string(), 200), json!([])),
+    };
+    json!({"kind": "cookie", "mode": "dec", "text": bytes_json(text), "texts": lossy(text), "de": de, "errc": errc(&err), "err": err, "vout": vout})
+}
+fn iter(text: &[u8]) -> Value {
+    let req = match request_with_cookie(text) { Ok(r) => r, Err(e) => return json!({"kind": "cookie", "mode": "iter", "text": bytes_json(text), "texts": lossy(text), "de": "noreq", "err": e, "errc": "", "pairs": []}) };
+    let pairs: Vec<Value> = req.get().headers.Cookies().map(|(k, v)| json!({"k": cps(k), "v": cps(v)})).collect();
+    json!({"kind": "cookie", "mode": "iter", "text": bytes_json(text), "texts": lossy(text), "de": "ok", "err": "", "errc": "", "pairs": pairs})
+}
+
+// ------------------------------------------------------------------ Set-Cookie
+const DATE: &str = "Wed, 21 Oct 2015 07:28:00 GMT";
+fn opt1(o: Option<String>) -> Value { match o { None => json!([]), Some(s) => json!([cps(&s)]) } }
+fn set(scn: &Value, cz: &mut Cz) -> Value {
+    let mut res = ohkami::Response::OK();
+    let mut given = vec![];
+    for c in util::arr(&scn["cookies"]) {
+        let mut name = String::new();
+        for t in util::arr(&c["n"]) { match cz.pick_in(util::s(t), ck_reps(util::s(t))) { Ok(ch) => name.push(ch), Err(e) => return tool(e) } }
+        let mut value = String::new();
+        for t in util::arr(&c["v"]) { match cz.pick_in(util::s(t), ck_reps(util::s(t))) { Ok(ch) => value.push(ch), Err(e) => return tool(e) } }
+        let d = &c["d"];
+        let ds = |k: &str| util::s(&d[k]).to_string();
+        let maxage: Option<u64> = match ds("maxage").as_str() { "none" => None, "max" => Some(u64::MAX), s => match s.parse() { Ok(n) => Some(n), Err(_) => return tool("bad maxage") } };
+        let (expires, domain, path, secure, httponly, samesite) = (ds("expires") != "none", ds("domain"), ds("path"), ds("secure") == "y", ds("httponly") == "y", ds("samesite"));
+        let (dom2, path2, ss2) = (domain.clone(), path.clone(), samesite.clone());
+        res.headers.set().SetCookie(util::leak(name.clone()), value.clone(), move |mut b| {
+            if expires { b = b.Expires(DATE) }
+            if let Some(n) = maxage { b = b.MaxAge(n) }
+            if dom2 != "none" { b = b.Domain(dom2) }
+            if path2 != "none" { b = b.Path(path2) }
+            if secure { b = b.Secure() }
+            if httponly { b = b.HttpOnly() }
+            match ss2.as_str() { "Strict" => b.SameSiteStrict(), "Lax" => b.SameSiteLax(), "None" => b.SameSiteNone(), _ => b }
+        });
+        given.push(json!({"name": cps(&name), "value": cps(&value),
+            "expires": opt1(expires.then(|| DATE.to_string())), "maxage": opt1(maxage.map(|n| n.to_string())),
+            "domain": opt1((domain != "none").then(|| domain.clone())), "path": opt1((path != "none").then(|| path.clone())),
+            "secure": opt1(secure.then(String::new)), "httponly": opt1(httponly.then(String::new)),
+            "samesite": opt1((samesite != "none").then(|| samesite.clone()))}));
+    }
+    // the crate's own parser (SetCookie::from_raw behind the public iterator; unparsable lines are silently dropped by it)
+    let own: Vec<Value> = res.headers.SetCookie().map(|sc| { let (n, v) = sc.Cookie(); json!({"name": cps(n), "value": cps(v),
+        "expires": opt1(sc.Expires().map(str::to_string)), "maxage": opt1(sc.MaxAge().map(|n| n.to_string())),
+        "domain": opt1(sc.Domain().map(str::to_string)), "path": opt1(sc.Path().map(str::to_string)),
+        "secure": opt1(sc.Secure().and_then(|b| b.then(String::new))), "httponly": opt1(sc.HttpOnly().and_then(|b| b.then(String::new))),
+        "samesite": opt1(sc.SameSite().map(str::to_string))}) }).collect();
+    // the lines as they travel: the response is really sent and re-read by the independent parser
+    let mut wire_bytes: Vec<u8> = vec![];
+    util::block_on(ohkami::__verif::send(res, &mut wire_bytes));
+    // header block split by hand on CRLF so that a line break smuggled into a Set-Cookie line shows up as extra lines
+    let head_end = util::find(&wire_bytes, b"\r\n\r\n").unwrap_or(wire_bytes.len());
+    let parsed = util::parse_response(&wire_bytes, false);
+    let mut lines: Vec<Value> = vec![];
+    let mut others = 0;
+    for l in wire_bytes[..head_end].split(|b| *b == b'\n').skip(1) {
+        let l = l.strip_suffix(b"\r").unwrap_or(l);
+        if let Some(v) = l.strip_prefix(b"Set-Cookie: ") { lines.push(bytes_json(v)) }
+        else if !(l.starts_with(b"Date: ") || l.starts_with(b"Content-Length: ")) { others += 1 }
+    }
+    json!({"kind": "cookie", "mode": "set", "given": given, "own": own, "lines": lines, "other_lines": others, "wire_error": parsed.error, "status": parsed.status})
+}
+
+macro_rules! dispatch { ($ty:expr, $f:ident ( $($a:expr),* )) => { match $ty {
+    "CkA" => $f::<CkA>($($a),*), "CkAB" => $f::<CkAB>($($a),*), "CkBA" => $f::<CkBA>($($a),*), "CkOpt" => $f::<CkOpt>($($a),*),
+    "CkRen" => $f::<CkRen>($($a),*), "CkNum" => $f::<CkNum>($($a),*), "CkMap" => $f::<CkMap>($($a),*),
+    other => tool(format!("unknown type tag {other}")) } } }
+
+pub fn run(scn: &Value) -> Value {
+    let mut cz = Cz::new(scn);
+    match util::s(&scn["mode"]) {
+        "dec" => { let text = match jar_text(scn, &mut cz) { Ok(t) => t, Err(e) => return tool(e) }; dispatch!(util::s(&scn["ty"]), dec(&text)) }
+        "iter" => { let text = match jar_text(scn, &mut cz) { Ok(t) => t, Err(e) => return tool(e) }; iter(&text) }
+        "set" => set(scn, &mut cz),
+        m => tool(format!("unknown mode {m}")),
+    }
+}
+
+// ------------------------------------------------------------------ seeded random scenarios
+fn rnd_vclass(rng: &mut Rng) -> &'static str { if rng.chance(1, 3) { "al" } else { VCLASSES[rng.below(VCLASSES.len())] } }
+fn rnd_wire(rng: &mut Rng, min: usize, max: usize) -> Vec<Value> {
+    (0..rng.range(min, max)).map(|_| { let c = rnd_vclass(rng); let e = if raw_class(c) && rng.chance(2, 3) { "r" } else if rng.chance(1, 2) { "U" } else { "L" }; json!({"c": c, "e": e, "s": ""}) }).collect()
+}
+fn rnd_name(rng: &mut Rng, k: usize) -> Vec<Value> {
+    // distinct lengths keep random names distinct inside one jar
+    (0..k).map(|_| json!({"c": if rng.chance(2, 3) { "al" } else { "tp" }, "e": "r", "s": ""})).collect()
+}
+fn q(rng: &mut Rng) -> &'static str { if rng.chance(1, 4) { "y" } else { "n" } }
+const CK_KINDS: &[(&str, &[(&str, &str)])] = &[("CkA", &[("a", "str")]), ("CkAB", &[("a", "str"), ("b", "str")]), ("CkBA", &[("b", "str"), ("a", "str")]),
+    ("CkOpt", &[("a", "str"), ("o", "optstr")]), ("CkRen", &[("x-y", "str"), ("$t!", "str")]), ("CkNum", &[("n", "u32"), ("a", "str")])];
+pub fn gen(rng: &mut Rng, _i: usize) -> Value {
+    match rng.below(10) {
+        0..=3 => {
+            if rng.chance(1, 5) {
+                let n = rng.range(1, 4);
+                let jar: Vec<Value> = (0..n).map(|i| json!({"n": rnd_name(rng, i + 1), "v": rnd_wire(rng, 0, 8), "q": q(rng)})).collect();
+                return json!({"mode": "dec", "ty": "CkMap", "jar": jar});
+            }
+            let (ty, fs) = CK_KINDS[rng.below(CK_KINDS.len())];
+            let mut jar: Vec<Value> = vec![];
+            for (f, k) in fs.iter() {
+                if *k == "optstr" && rng.chance(1, 3) { continue }
+                let v = if *k == "u32" { vec![json!({"c": "sym", "e": *rng.pick(&["r", "r", "U", "L", "M"]), "s": format!("u32:={}", rng.next() as u32)})] } else { rnd_wire(rng, 0, 8) };
+                jar.push(json!({"n": [{"c": "sym", "e": "r", "s": format!("name:{f}")}], "v": v, "q": q(rng)}));
+            }
+            for j in (1..jar.len()).rev() { let k = rng.below(j + 1); jar.swap(j, k) }
+            for _ in 0..rng.below(3) {
+                let at = rng.below(jar.len() + 1);
+                let name = *rng.pick(&["zz", "_ga", "PHPSESSID", "k.0"]);
+                jar.insert(at, json!({"n": [{"c": "sym", "e": "r", "s": format!("name:{name}")}], "v": rnd_wire(rng, 0, 6), "q": q(rng)}));
+            }
+            json!({"mode": "dec", "ty": ty, "jar": jar})
+        }
+        4..=6 => {
+            let n = rng.range(1, 5);
+            let jar: Vec<Value> = (0..n).map(|i| json!({"n": rnd_name(rng, i + 1), "v": rnd_wire(rng, 0, 8), "q": q(rng)})).collect();
+            json!({"mode": "iter", "ty": "Iter", "jar": jar})
+        }
+        _ => {
+            let n = rng.range(1, 3);
+            let cookies: Vec<Value> = (0..n).map(|_| {
+                let name: Vec<Value> = (0..rng.range(1, 6)).map(|_| json!(if rng.chance(2, 3) { "al" } else { "tp" })).collect();
+                let value: Vec<Value> = (0..rng.below(10)).map(|_| json!(rnd_vclass(rng))).collect();
+                json!({"n": name, "v": value, "d": {
+                    "expires": *rng.pick(&["none", "date"]), "maxage": *rng.pick(&["none", "0", "1", "max", "86400", "9223372036854775808"]),
+                    "domain": *rng.pick(&["none", "ex.com", "a.b-c.example"]), "path": *rng.pick(&["none", "/", "/a b", "/x/y=z,w"]),
+                    "secure": *rng.pick(&["y", "n"]), "httponly": *rng.pick(&["y", "n"]), "samesite": *rng.pick(&["none", "Strict", "Lax", "None"])}})
+            }).collect();
+            json!({"mode": "set", "ty": "Set", "cookies": cookies})
+        }
+    }
+}
